@@ -3,8 +3,14 @@
 record the outcome in seeded/<name>/meta.json and write seeded/README.md."""
 import json, os, re, shutil, subprocess, sys, tempfile
 ROOT = os.path.dirname(os.path.dirname(os.path.abspath(__file__)))
-EXTRA = {"C01-m1": ["C07"], "C01-m2": ["C02"], "C06-m2": ["C05"], "C08-m1": ["C07"], "C02-m2": ["C10"], "C03-m2": ["C07"], "C07-m1": ["C17"], "C17-m1": ["C03"], "C12-m4": ["C17"], "C03-m4": ["C17"], "C07-m3": ["C09"], "C07-m4": ["C03", "C09"], "C05-m3": ["C18"], "C18-m3": ["C05"], "C09-m3": ["C03"], "C01-m3": ["C13"], "C01-m4": ["C16"], "C15-m4": ["C11"], "C06-m4": ["C16"], "C19-m4": ["C05"], "C02-m6": ["C12"], "C10-m4": ["C02"]}
+EXTRA = {"C01-m1": ["C07"], "C01-m2": ["C02"], "C06-m2": ["C05"], "C08-m1": ["C07"], "C02-m2": ["C10"], "C03-m2": ["C07"], "C07-m1": ["C17"], "C17-m1": ["C03"], "C12-m4": ["C17"], "C03-m4": ["C17"], "C07-m3": ["C09"], "C07-m4": ["C03", "C09"], "C05-m3": ["C18"], "C18-m3": ["C05"], "C09-m3": ["C03"], "C01-m3": ["C13"], "C01-m4": ["C16"], "C15-m4": ["C11"], "C06-m4": ["C16"], "C19-m4": ["C05"], "C02-m6": ["C12"], "C10-m4": ["C02"], "C01-m5": ["C16"], "C05-m5": ["C18"], "C09-m4": ["C03"], "C04-m5": ["C10"], "C12-m5": ["C17"], "C12-m6": ["C17"], "C18-m6": ["C05", "C06"]}
 NOTES = {
+ "C01-m5": "caught by C16 (same slip as C01-m4: falsy action results become null)",
+ "C05-m5": "caught by C18 (a started record's context list is rewritten through the shared staged entry) - the live and the restored twin of C05 did not hit the window within the quick budget",
+ "C09-m4": "caught by C03 (its pinned regression for R21 / R29: the workflow stays pausing with nothing in flight)",
+ "C18-m6": "not caught: the completion context of a failed with-items join is read from the staged entry, which a later arrival extended; no record changes and C06's value model does not follow with-items joins that fail",
+ "C12-m5": "not caught: needs a rerun of a concurrency-limited with-items task; C12 never reruns and C17's with-items tasks have no concurrency limit (stated bound)",
+ "C12-m6": "not caught: needs an item action that reports `pausing` on its own while the workflow keeps running; the simulated provider sends intermediate statuses only in answer to a workflow cancellation",
  "C15-m4": "caught by C11 (a YAQL expression raising IndexError / ZeroDivisionError escapes update_task_state): C11 owns 'expression errors are contained'",
  "C06-m4": "caught by C16 (a mapping republished over an empty mapping keeps the empty one): C06's value model excludes mapping values (they deep-merge)",
  "C19-m4": "caught by C05 (live twin vs restored twin differ): the change is invisible across hash seeds, it depends on where the conductor was restored",
